@@ -197,8 +197,8 @@ def ref_check(conds, out, res):
     nrows = min(len(c) for c in conds)
     w = dict(case={"table": [[e["mcs_results"] for e in c] for c in conds]})
     ids = [e.get("id") for e in out]
-    if len(set(ids)) != len(ids) or ids != sorted(ids, key=int):
-        res.viol("selection_ids_not_unique_or_out_of_order", ids=ids, **w)
+    if len(set(ids)) != len(ids):  # (the order of the retained rows is not asserted: find() re-attaches by id)
+        res.viol("selection_ids_not_unique", ids=ids, **w)
         return
     outby = {e["id"]: e for e in out}
     for idx in range(nrows):
